@@ -27,6 +27,7 @@ class Result:
     construct: str
     message: str
     key: str = ""
+    name_free: bool = False  # the finding does not depend on how any local variable is spelled
 
     def ident(self) -> str:
         return f"{self.prop}/{self.rule}/{self.function}/{self.key}"
@@ -60,7 +61,7 @@ class Ctx:
         self.rules[rid] = statement
         self.current_rule = rid
 
-    def _mk(self, status, fi: Optional[FunctionInfo], node, construct, message, key=None, rule=None) -> Result:
+    def _mk(self, status, fi: Optional[FunctionInfo], node, construct, message, key=None, rule=None, name_free=False) -> Result:
         rid = rule or self.current_rule or "?"
         file = fi.file if fi else "?"
         line = getattr(node, "lineno", None) or (fi.lineno if fi else 0)
@@ -70,20 +71,20 @@ class Ctx:
         if isinstance(construct, ast.AST):
             construct = src(construct)
         construct = norm_key(str(construct))
-        r = Result(self.prop, rid, status, file, line, fn, construct, message, norm_key(key if key is not None else construct))
+        r = Result(self.prop, rid, status, file, line, fn, construct, message, norm_key(key if key is not None else construct), name_free)
         self.results.append(r)
         return r
 
     def ok(self, fi, node, construct, message, key=None, rule=None):
         return self._mk("ok", fi, node, construct, message, key, rule)
 
-    def violation(self, fi, node, construct, message, key=None, rule=None):
-        return self._mk("violation", fi, node, construct, message, key, rule)
+    def violation(self, fi, node, construct, message, key=None, rule=None, name_free=False):
+        return self._mk("violation", fi, node, construct, message, key, rule, name_free)
 
-    def check(self, cond: bool, fi, node, construct, ok_msg: str, bad_msg: str, key=None, rule=None):
+    def check(self, cond: bool, fi, node, construct, ok_msg: str, bad_msg: str, key=None, rule=None, name_free=False):
         if cond:
             return self.ok(fi, node, construct, ok_msg, key, rule)
-        return self.violation(fi, node, construct, bad_msg, key, rule)
+        return self.violation(fi, node, construct, bad_msg, key, rule, name_free)
 
     def note(self, text: str):
         self.notes.append(text)
